@@ -49,7 +49,21 @@ ASSUMPTIONS = [
     "predictor parameters are attached to LZW/Flate stages (ISO 32000-1 Table 8) in the property domain",
     "settings.STRICT is False (the default)",
 ]
-STATEMENT_STATUS: Dict[str, str] = {}
+STATEMENT_STATUS: Dict[str, str] = {
+    "ahx_rt": "proved: all byte strings, all case/white-space/EOD choices (incl. odd digit count)",
+    "a85_rt": "proved: all byte strings, z/white-space choices and framings (<~, ~, none / ~>, ~, none), incl. the empty payload",
+    "a85_body_rt": "proved: base64.a85decode model inverts the group encoder",
+    "rl_rt": "proved: arbitrary segmentation into literal (1-128) and repeat (2-128) runs, with/without EOD",
+    "lzw_rt": "proved: all byte strings, arbitrary extra Clear codes, width changes 511/1023/2047, KwKwK, forced reset, EOD + padding",
+    "png_rt": "proved (for the repaired code): colors/columns arbitrary, bits 8 or 1, all rows, every assignment of the 5 filter types",
+    "png_first_row_rt": "proved: the first-row case the pinned code got wrong",
+    "tiff_rt": "proved: 8 bits per component, colors, columns >= 1",
+    "predictor_rt": "proved: dispatch absent / Predictor 1 / 2 / >= 10 with defaulted Colors, Columns, BitsPerComponent",
+    "chain_rt": "proved: chains of any length, by induction; stages for AHx, A85, LZW, RL, Fl (zlib abstract) under full and "
+                "abbreviated names (membership in the regenerated LITERALS_* tuples) with any predictor setting",
+    "stream_chain_rt": "proved: PDFStream.get_filters/decode on the Filter and DecodeParms arrays of a chain",
+    "stream_delim": "proved: payload delimited exactly for LF / CRLF (and CR not followed by LF), any payload bytes, Length = |payload|",
+}
 
 CLASSIFIERS = {
     # kept for reference: both were fixed in the repo worktree, so no open finding uses them
@@ -415,7 +429,7 @@ def run_direct(ctx) -> None:
     rng = ctx.rng
     batch = Batch(ctx)
     maxlen = 2500 if ctx.tier == "quick" else 12000
-    n = ctx.n(60, 1500)
+    n = ctx.n(300, 4000)
     for filt in ("ahx", "a85", "rl", "lzw", "png", "tiff"):
         for i in range(n):
             if not ctx.time_left():
@@ -483,7 +497,7 @@ def run_wild(ctx) -> None:
     rng = ctx.rng
     D = impl_decoders()
     batch = Batch(ctx)
-    n = ctx.n(150, 4000)
+    n = ctx.n(500, 6000)
     for filt in ("ahx", "a85", "rl", "lzw", "png", "tiff"):
         for i in range(n):
             x, choice = gen_direct_case(rng, filt, 300)
@@ -878,7 +892,7 @@ def parse_stream_at(buf: bytes, pos: int):
 def run_chains(ctx) -> None:
     rng = ctx.rng
     batch = Batch(ctx)
-    n = ctx.n(260, 8000)
+    n = ctx.n(1200, 12000)
     maxlen = 700 if ctx.tier == "quick" else 4000
     for i in range(n):
         if not ctx.time_left():
@@ -893,7 +907,7 @@ def run_chains(ctx) -> None:
                "RunLengthDecode", "RL", "DCTDecode", "DCT", "JPXDecode", "JBIG2Decode", "Crypt", "Foo", "CCF"]
     from pdfminer.pdftypes import PDFStream
     from pdfminer.psparser import LIT
-    for i in range(ctx.n(200, 5000)):
+    for i in range(ctx.n(600, 8000)):
         k = rng.choice([0, 1, 1, 2, 3])
         names = [rng.choice(D_names[:10] if rng.random() < 0.8 else D_names) for _ in range(k)]
         if "CCF" in names:
@@ -975,7 +989,7 @@ def run_chains(ctx) -> None:
                  branch="chainwild:" + (got[2:] if got.startswith("E") else "ok"))
     batch.flush()
     # wild stream delimitation (tie only): wrong Length, odd EOLs, missing endstream, EOF
-    for i in range(ctx.n(200, 5000)):
+    for i in range(ctx.n(600, 8000)):
         payload = gen_payload(rng, 40)
         ln = rng.choice([len(payload), len(payload), 0, len(payload) + rng.randint(1, 30), max(0, len(payload) - 1)])
         eol = rng.choice([b"\n", b"\r\n", b"\r", b"", b" \n", b"\r\r", b"\n\n", b" "])
